@@ -603,3 +603,18 @@ def pretty(t, depth=0):
     if k == 'vmap':
         return 'map[%s=%s..%s)(%s <- %s)' % (p(t[2]), p(t[3]), p(t[4]), p(t[1]), p(t[5]))
     return '%s(%s)' % (k, ', '.join(p(x) if isinstance(x, tuple) else str(x) for x in t[1:]))
+
+
+def offset_from(t, i):
+    """c such that t == c + i with c independent of i (ring identities), or None"""
+    try:
+        p = _poly(('-', t, i))
+    except RecursionError:
+        return None
+    for m in p:
+        for a in m:
+            if occurs(a, i):
+                return None
+    if any(c < 0 for c in p.values()):
+        return None
+    return _from_poly(p)
